@@ -223,6 +223,10 @@ def pair_up(typed, tr, out):
     if tr["k"] in ("and", "or"):
         mark = len(out)
         out.append((typed, tr))          # the whole && / || has the (singleton) type of its left operand
+        if n[0] == "lit":
+            # ExprBuilder::and / ::or fold two boolean literals into one: the literal stands for the whole
+            # && / ||, not for a particular operand
+            return True
         if pair_up(typed, tr["c"][0], out):
             return True
         del out[mark:]
